@@ -22,7 +22,7 @@ import json
 import time
 
 from .. import sched
-from ..framework import REPO, lean_driver
+from ..framework import REPO, InfraError, lean_driver
 from ..extractors import e8_handover
 
 OUTPUT = str(REPO / "eliot" / "_output.py")
@@ -32,8 +32,10 @@ KEY_OVERTAKE = {"schedule": "message-logged-during-first-add-overtakes-buffered-
 KEY_REMOVE_SKIP = {"schedule": "remove-during-send-makes-sender-skip-the-next-destination"}
 # Removing a destination that is followed by others in the list, while another thread is iterating over that list in
 # send(): `list.remove` shifts the tail under the iterator and the sender skips the next destination - a destination that
-# is registered all along misses the message (GENUINE on the tree as of 730dc3c; reported with KEY_REMOVE_SKIP).  Off until
-# the finding is registered in KNOWN_FINDINGS.jsonl (or remove() is made copy-on-write), so that the check stays silent.
+# is registered all along misses the message.  Observed on the tree as of 730dc3c, but OUTSIDE the 20 properties (DESIGN.md
+# section 8, "outside the property"): C12 quantifies schedules only over the first add_destinations, and no property
+# schedules remove_destination against a sender.  The configuration is therefore not part of the check (flag off); it is
+# kept so that the behaviour can be reproduced, and is then reported with KEY_REMOVE_SKIP.
 INCLUDE_REMOVE_BEFORE_OTHERS = False
 # also check "in order and ahead of later messages" under interleavings (set False to restrict the oracle to loss / duplication)
 CHECK_ORDER = True
@@ -197,6 +199,29 @@ def selected_after_removal(case, res, obs):
     return bad
 
 
+def remove_during_iteration(case, res):
+    """The trace pattern of KEY_REMOVE_SKIP: a step of `Destinations.remove` by the adding thread lies between two
+    evaluations of the same sender's `for dest in ...` line within one send (the list shrank under its iterator)."""
+    L = _lines()
+    fors = {L.get("sendto_for"), L.get("send_for")} - {None}
+    n = len(case["loggers"])
+    removes = [i for i, s in enumerate(res.trace) if s.tid == n and s.func == "remove"]
+    if not removes or not fors:
+        return False
+    for t in range(n):
+        prev = None
+        for i, s in enumerate(res.trace):
+            if s.tid != t:
+                continue
+            if s.func in ("send", "_send_to") and s.line in (L.get("send_first"), L.get("sendto_first")):
+                prev = None  # a new send starts
+            if s.func in ("send", "_send_to") and s.line in fors:
+                if prev is not None and any(prev < r < i for r in removes):
+                    return True
+                prev = i
+    return False
+
+
 def classify(sk, case, res):
     """Structural key of a losing schedule (None if it is neither of the two known shapes)."""
     L = sk["lines"]
@@ -355,7 +380,7 @@ def run_handover(ctx, seconds=None):
         bad = oracle(case, res, obs)
         if bad:
             key = KEY_OVERTAKE if "overtook" in bad[0] else classify(sk, case, res)
-            if key is None and "never received" in bad[0] and any(op == "remove" for op, _ in case.get("after", [])):
+            if key is None and "never received" in bad[0] and remove_during_iteration(case, res):
                 key = KEY_REMOVE_SKIP
             ctx.count("handover:lost:" + (key["schedule"] if key else "unclassified"))
             k = json.dumps(key)
@@ -378,10 +403,12 @@ def run_handover(ctx, seconds=None):
         ctx.extra["handover_witness_lost"] = bool(oracle(cases[0], res, obs))
         one(cases[0], "witness", res, obs)
     # 2. search
+    done = 0
     for ci, case in enumerate(cases):
         left = deadline - time.time()
         if left <= 0:
             break
+        done += 1
         per_end = time.time() + max(1.0, left / (len(cases) - ci))
         for res, obs in sched.explore(lambda ch: run_real(S, case, ch), bound=bound, limit=dfs_limit, result=lambda r: r[0]):
             one(case, "dfs", res, obs)
@@ -393,6 +420,12 @@ def run_handover(ctx, seconds=None):
                 break
             res, obs = run_real(S, case, sched.RandomChooser(rng, stay=rng.choice([0.0, 0.5, 0.8, 0.9])))
             one(case, "random", res, obs)
+    nsched = len(model_in) + ctx.dist.get("handover:after-ops:oracle-only", 0)
+    ctx.count("explored:handover:configurations", n=done)
+    ctx.count("explored:handover:schedules", n=nsched)
+    if (done < 7 or nsched < 500) and not ctx.violations and not ctx.known_hits:
+        raise InfraError("time budget exhausted before the minimum exploration: hand-over ran %d of at least 7 configurations, %d of at least 500 schedules"
+                         % (done, nsched))
     # 3. the model on the same schedules
     if model_in:
         answers = lean_driver("Driver/Handover.lean", model_in)
